@@ -534,13 +534,15 @@ static void visit_call(const json& v)
     reg.readonly();
     char* p = reg.data() + v0;
     const int stop = v["stop"].get<int>();
+    const std::string how = v["how"].get<std::string>();
+    const int chunk = how == "sub1" ? 1 : how == "sub2" ? 2 : 0;
     std::vector<vevent> log;
     std::ptrdiff_t end = 0;
-    rep.note_distinct(msg + std::to_string(stop) + hex(all));
+    rep.note_distinct(msg + std::to_string(stop) + v["how"].get<std::string>() + hex(all));
     const auto& vo = R.visits.at(msg);
-    std::string err = attempt([&] { end = vo.run(p, size, stop, log); });
-    json cs = {{"msg", msg}, {"stop", stop}, {"schema", g_schema}, {"ext", ext}};
-    const std::string tail = "/" + g_schema + ":" + msg;
+    std::string err = attempt([&] { end = vo.run(p, size, stop, log, chunk); });
+    json cs = {{"msg", msg}, {"stop", stop}, {"schema", g_schema}, {"ext", ext}, {"how", how}};
+    const std::string tail = std::string(chunk ? "/subrange" : "") + "/" + g_schema + ":" + msg;
     if(!err.empty())
     {
         cs["events_before"] = log.size();
